@@ -137,7 +137,25 @@ func TestVfC13(t *testing.T) {
 	unauthReads := vlib.Param("UNAUTHREADS", "0") == "1"
 	metrics := vlib.Param("METRICS", "0") == "1"
 	assetAPI := vlib.Param("ASSET", "1") == "1"
-	cfgName := fmt.Sprintf("auth=%s allow_unauthenticated_reads=%v endpoint_metrics=%v asset=%v", authMode, unauthReads, metrics, assetAPI)
+	// "whatever other options are enabled": one further option (set) per configuration
+	extras := map[string][]string{
+		"none":              nil,
+		"idle_timeout":      {"--idle_timeout", "1h"},
+		"metrics_prefix":    {"--http_metrics_prefix"},
+		"instance_mangling": {"--enable_ac_key_instance_mangling"},
+		"no_deps_check":     {"--disable_grpc_ac_deps_check"},
+		"uncompressed":      {"--storage_mode", "uncompressed"},
+		"max_blob_size":     {"--max_blob_size", "1000000"},
+		"http_timeouts":     {"--http_read_timeout", "30s", "--http_write_timeout", "30s"},
+		"no_ac_validation":  {"--disable_http_ac_validation"},
+		"hard_limit":        {"--max_size_hard_limit", "2"},
+	}
+	extraName := vlib.Param("EXTRA", "none")
+	extra, okx := extras[extraName]
+	if !okx {
+		t.Fatalf("unknown EXTRA %q", extraName)
+	}
+	cfgName := fmt.Sprintf("auth=%s allow_unauthenticated_reads=%v endpoint_metrics=%v asset=%v other=%s", authMode, unauthReads, metrics, assetAPI, extraName)
 	rep := vlib.NewReport("C13", "E4:"+cfgName)
 	defer rep.Write()
 	log.SetOutput(io.Discard)
@@ -169,6 +187,7 @@ func TestVfC13(t *testing.T) {
 	if unauthReads {
 		args = append(args, "--allow_unauthenticated_reads")
 	}
+	args = append(args, extra...)
 
 	// exactly what main() does
 	app := cli.NewApp()
